@@ -7,7 +7,7 @@ EXTENDS Echsd, IOUtils
 Thorough == "TIER" \in DOMAIN IOEnv /\ IOEnv.TIER = "thorough"
 UidsV == {"t1", "t2"}
 Graph == "TIER" \in DOMAIN IOEnv /\ IOEnv.TIER = "graph"
-OccsV == IF Thorough THEN {<<1>>, <<1, 1>>, <<2, 4>>, <<1, 2, 3>>, <<0, 3>>} ELSE IF Graph THEN {<<1>>, <<1, 2>>} ELSE {<<1>>, <<1, 1>>, <<1, 2>>}
+OccsV == IF Thorough THEN {<<1>>, <<1, 1>>, <<2, 4>>, <<1, 2>>, <<0, 3>>} ELSE IF Graph THEN {<<1>>, <<1, 2>>} ELSE {<<1>>, <<1, 1>>, <<1, 2>>}
 MaxSimsV == IF Thorough THEN {0, 1, 2} ELSE {0, 1}
 MaxNowV == IF Thorough THEN 5 ELSE IF Graph THEN 3 ELSE 4
 MaxReqV == 1
